@@ -134,6 +134,20 @@ def xor_terms(e):
     return [e]
 
 
+def unmask(e):
+    """(x, True) for `x & 0xFF` (either operand order, through casts), else (e, False)"""
+    y = e
+    while y[0] == 'cast':
+        y = y[1]
+    if y[0] == 'bin' and y[1] == 'BitAnd':
+        for a, b in ((y[2], y[3]), (y[3], y[2])):
+            if b == ('const', 0xFF):
+                while a[0] == 'cast':
+                    a = a[1]
+                return a, True
+    return e, False
+
+
 def strip_cast(e):
     while e[0] == 'cast':
         e = e[1]
@@ -235,12 +249,13 @@ def r08_3(ctx):
                         want = 'buf[%d]' % (15 - k)
                     else:
                         sh = 8 * (15 - k)
-                        x = idx
+                        x = unmask(idx)[0]
                         if sh:
                             ok = x[0] == 'bin' and x[1] == 'Shr' and x[3] == ('const', sh)
                             x = x[2] if ok else x
                         else:
                             ok = True
+                        x = unmask(x)[0]
                         # x must be head(crc) ^ read_u32_le(head(buf))
                         xt = xor_terms(x)
                         ok = ok and len(xt) == 2 and any(head(C)(y) for y in xt) and any(is_call(y, 'read_u32_le') and head(B)(y[2][0]) for y in xt)
@@ -257,7 +272,12 @@ def r08_3(ctx):
                         while x[0] == 'cast':
                             casts.append(x[2])
                             x = x[1]
-                        ctx.check(R, 'u8' in casts, 'lane-%d-byte' % k, 'the crc lane %d index is not truncated to one byte' % k, fn=f)
+                        x, masked = unmask(x)
+                        while x[0] == 'cast':
+                            casts.append(x[2])
+                            x = x[1]
+                        top = x[0] == 'bin' and x[1] == 'Shr' and x[3] == ('const', 24)       # a u32 shifted right by 24 is already one byte
+                        ctx.check(R, 'u8' in casts or masked or top, 'lane-%d-byte' % k, 'the crc lane %d index is not truncated to one byte' % k, fn=f)
             else:
                 tt = [t for t in terms if t[0] == 'index' and t[1] == ('citem', 'raw::crc32_table::TABLE')]
                 if tt:
